@@ -78,7 +78,7 @@ def build_all(log=print):
         if rc != 0:
             raise BuildBroken("harness go.mod generation", out)
         for name in ("kbharness", "kbextract"):
-            rc, out = sh(["go", "build", "-tags", "verif", "-o", os.path.join("bin", name), "./cmd/" + name],
+            rc, out = sh(["go", "build", "-buildvcs=false", "-tags", "verif", "-o", os.path.join("bin", name), "./cmd/" + name],
                          cwd=HARNESS, env=GOENV)
             if rc != 0:
                 raise BuildBroken("go build " + name + " (does /repo still compile with -tags verif?)", out)
